@@ -1,10 +1,14 @@
 """Cache (pickle) the flow."""
+import itertools
 import os
 import pickle
 import sys
 
 import lena.core 
 import lena.context
+
+# distinguishes temporary files of simultaneous runs in one process
+_tmp_counter = itertools.count()
 
 if sys.version_info.major == 2:
     import cPickle
@@ -209,7 +213,12 @@ class Cache(object):
         # the whole flow was dumped: an interrupted run
         # (a consumer that stops or an element that raises)
         # must not leave a truncated cache.
-        tmp_filename = self._filename + ".tmp"
+        # Each run writes to a temporary file of its own: a run that was
+        # interrupted, but whose generator is still alive, must not
+        # write (when it is finally closed) into the file of a later run.
+        tmp_filename = "{}.{}.{}.tmp".format(
+            self._filename, os.getpid(), next(_tmp_counter)
+        )
         complete = False
         try:
             with open(tmp_filename, "wb") as f:
